@@ -19,7 +19,7 @@ import (
 
 func init() {
 	mc.Register(&mc.Check{ID: "C02", Category: "exploration",
-		Rule:   "Engine A over worlds (quote PKI in {T,F}) x (trusted pool in {{T}, nil=embedded Intel root, {F}, {T,F}, empty, {unrelated}}) x look-alike substitution at each chain position x role-confusion chains x per-certificate deviations x chain assembly (order, block count, block types, trailing bytes) within the deviation bound, each at the tier's checking levels; plus every root-of-trust configuration (nil, files, inline, mixed, empty, non-PEM, other PEM type, cert+garbage, missing file) against quotes under T and F, plus Intel's sample quote. Non-trivial: >= 1 deviation or a configuration case; distinct by decision vector",
+		Rule:   "Engine A over worlds (quote PKI in {T,F}) x (trusted pool in {{T}, nil=embedded Intel root, {F}, {T,F}, empty, {unrelated}}) x look-alike substitution at each chain position x role-confusion chains x per-certificate deviations x chain assembly (order, block count, block types, trailing bytes) within the deviation bound, each at the tier's checking levels; plus every root-of-trust configuration (nil, files, inline, mixed, empty, non-PEM, other PEM type, cert+garbage, missing file) against quotes under T and F, plus Intel's sample quote; plus every fixed-length sequence of {set TrustedRoots to one of 5 pools, copy the options by value, verify one of 3 quotes} on ONE shared options value. Non-trivial: >= 1 deviation or a configuration case; distinct by decision vector",
 		Assume: append([]string{"mechanism-only deviations (e.g. ECDSA-SHA384 certificates) have no stated verdict and are only checked for no-panic"}, cryptoAssume...),
 		Run:    runC02})
 }
